@@ -4,15 +4,18 @@ sum-product computed from the model's published definition.
 Oracle (everything below is written here and shares no code with
 ``cogent3.evolve``):
 
-* state spaces: nucleotides, dinucleotides, the 61 sense codons of the
-  standard genetic code (table written in the harness) and the 20 amino acids;
+* state spaces: nucleotides, dinucleotides, the sense codons of a genetic code
+  (standard table written in the harness; tables 2, 4, 6, 11, 12, 27 from the
+  strings pinned in vlib/ncbi_codes.py; synonymous / non-synonymous follows
+  from the same table) and the 20 amino acids;
 * rate matrices: ``q(x->y) = prod(parameters whose predicate holds for x->y)
   * pi-term`` for states differing at exactly one position, zero otherwise;
   the pi-term follows the motif-probability model (word frequency of the
-  target, monomer frequency of the new nucleotide, frequency of the target
-  conditional on its unchanged positions, or 1 for the non-stationary general
-  models whose motif probabilities are only the root distribution); the
-  diagonal makes rows sum to zero and Q is calibrated to ``-sum pi_i q_ii = 1``.
+  target, monomer frequency of the new nucleotide, position-specific monomer
+  frequency of the new nucleotide, frequency of the target conditional on its
+  unchanged positions, or 1 for the non-stationary general models whose motif
+  probabilities are only the root distribution); the diagonal makes rows sum
+  to zero and Q is calibrated to ``-sum pi_i q_ii = 1``.
   For the empirical protein models the exchangeability tables are read as data
   from ``cogent3.evolve.models`` and Q is formed here;
 * ``P(edge) = scipy.linalg.expm(Q * length * bin-rate)``;
@@ -23,7 +26,9 @@ Oracle (everything below is written here and shares no code with
   probabilities, columns are summed in the log domain and loci are added;
 * discrete gamma rates: bin medians from ``scipy.stats.gamma.ppf`` scaled to a
   weighted mean of one (the rule stated in the GammaDefn docstring); "free"
-  rate bins: cumulative increments scaled the same way.
+  rate bins: cumulative increments scaled the same way; the same two rules give
+  the per-bin factors when the bins are declared on a model parameter
+  (``ordered_param="kappa"`` etc.): value on (edge, bin) = value on the edge x factor of the bin.
 """
 
 from __future__ import annotations
@@ -38,19 +43,21 @@ from vlib.core import Soft, Sub
 PROPERTY_ID = "C02"
 LEVEL = "exploration"
 RULE = (
-    "A case is a tree (3-6 tips, root degree 2-4, internal degree 2-4; polytomy = root degree 4 or an internal node with 3-4 children; branch lengths log-uniform in [1e-3, 3] with a share of "
-    "1e-6..1e-4 and 3..10), a continuous-time model (every registered nucleotide, codon and protein model, generated reversible / "
-    "non-reversible nucleotide models built from predicates, generated dinucleotide models with tuple / monomer / conditional motif "
-    "probabilities), parameter values log-uniform inside the declared bounds, non-uniform motif probabilities, a configuration "
-    "(plain; per-edge parameter scopes; 2-4 rate-heterogeneity bins with gamma or free rates and unequal bin probabilities; site-class "
-    "bins carrying their own parameter values; two loci with their own parameters, motif probabilities and alignments) and an "
-    "alignment of 1-15 columns (drawn from a pool of distinct columns so that repeated columns occur) over the model's alphabet with "
-    "about a quarter of the cells degenerate (IUPAC codes, N/X, gap, ?). The harness builds Q, P=expm(Qt), the pruning recursion and "
-    "the mixtures itself and compares: parameter names, the calibrated rate matrix of every edge (and bin/locus), P of every edge, "
-    "the per-column likelihoods and lnL. The normalisation sub-check supplies all 4^n columns of 3-4 tips for 4-state models "
-    "(any configuration) and requires the per-column likelihoods to sum to one. Non-trivial = unequal motif probabilities, at "
-    "least one degenerate symbol and at least one of polytomy, per-edge scope, bins, non-reversible model (normalisation sub-check: "
-    "unequal motif probabilities and one of those four). Distinct = distinct case encodings."
+    "A case is a tree (2-6 tips, root degree 2-4, internal degree 2-4; polytomy = root degree 4 or an internal node with 3-4 children; in the thorough tier one nucleotide "
+    "case in six has 20-40 tips; branch lengths log-uniform in [1e-3, 3] with a share of 1e-6..1e-4 and 3..10), a continuous-time model (every registered nucleotide, "
+    "codon and protein model; codon models for the standard code or, half of the time, get_model(name, gc=k) with k in {2, 4, 6, 11, 12, 27}; generated models built from "
+    "predicates: reversible / non-reversible nucleotide, dinucleotide (tuple / monomer / position-specific monomers / conditional motif probabilities, CpG term), codon "
+    "(TimeReversibleCodon / NonReversibleCodon with groups of nucleotide changes or the predefined kappa / transition / transversion, omega / replacement / silent, CpG and a "
+    "conjunction of two predicates, any motif-probability model, any of the codes) and protein (TimeReversibleProtein / NonReversibleProtein with groups of amino-acid "
+    "changes)), parameter values log-uniform inside the declared bounds, non-uniform motif probabilities, a configuration (plain; per-edge parameter scopes; 2-4 "
+    "rate-heterogeneity bins with gamma or free rates and unequal bin probabilities; 2-4 bins on one model parameter with gamma or free factors (ordered_param=<parameter>); "
+    "site-class bins carrying their own parameter values; two loci with their own parameters, motif probabilities and alignments) and an alignment of 1-15 columns (drawn "
+    "from a pool of distinct columns so that repeated columns occur) over the model's alphabet with about a quarter of the cells degenerate (IUPAC codes, N/X, gap, ?). The "
+    "harness builds Q, P=expm(Qt), the pruning recursion and the mixtures itself and compares: parameter names, the calibrated rate matrix of every edge (and bin/locus), P "
+    "of every edge, the per-column likelihoods and lnL. The normalisation sub-checks supply every possible column (4^n for n = 2-4 tips; 16^n and 20^n for n = 2-3; all "
+    "pairs of sense codons for 2 tips; named and generated models, any configuration) and require the per-column likelihoods to sum to one. Non-trivial = unequal motif "
+    "probabilities, at least one degenerate symbol and at least one of polytomy, per-edge scope, bins, non-reversible model (normalisation sub-checks: unequal motif "
+    "probabilities and one of those four). Distinct = distinct case encodings."
 )
 ASSUMPTIONS = [
     "continuous-time models only (the discrete-time BH / DT entries of cogent3.evolve.models.models are outside the statement)",
@@ -62,15 +69,29 @@ ASSUMPTIONS = [
     "a P deviation above 2e-9 that occurs with the default exponentiator on a rate matrix whose eigenvector matrix has condition number > 1e5 is reported under the single "
     "signature psub/eigen-precision; for such a case delta is capped at 1e-6 instead, so that the lnL / column clauses still test the pruning and do not repeat the same root cause",
     "degenerate symbols and gaps are the set of compatible states (gap, ?, N / X = all states; a degenerate codon = the sense codons it matches, "
-    "generated so that this set is never empty, since all-stop codons are rejected by design); codon alignments contain no stop codon",
-    "the CpG predicate of the H04 models and of generated dinucleotide models follows the MotifChange semantics 'exactly one CG-containing window covers the changed "
+    "generated so that this set is never empty, since all-stop codons are rejected by design); codon alignments contain no stop codon of the model's genetic code",
+    "genetic codes other than the standard one come from the ncbieaa strings pinned in vlib/ncbi_codes.py (sense codons = codons not translated to '*'; "
+    "omega / replacement = the two codons translate differently, silent = identically); code 27 has no stop codon, so its models have 64 states",
+    "the CpG predicate of the H04 models and of generated dinucleotide / codon models follows the MotifChange semantics 'exactly one CG-containing window covers the changed "
     "position' (so the codon pair CCG<->CGG, which destroys one CpG and creates another, is not CpG-flagged); this is modelled, not asserted against",
     "gamma rate bins use bin medians rescaled to weighted mean one, as the GammaDefn docstring states; rates are additionally compared with the reported 'rate' values at 1e-7 "
-    "(scipy's and cogent3's inverse gamma CDF agree to about 1e-9 only)",
-    "Q is calibrated with the (root) motif probabilities also for the non-stationary models GN / ssGN / GNC / generated non-reversible models (documented by get_rate_matrix_for_edge)",
+    "(scipy's and cogent3's inverse gamma CDF agree to about 1e-9 only); bins declared on a model parameter (ordered_param=<par>, distribution gamma / free; pinned by "
+    "tests/test_evolve/test_likelihood_function.py 'gamma distributed kappa' and test_complex_binned_partition) multiply the parameter's per-edge value by a per-bin factor "
+    "obtained by the same two rules (parameters <par>_factor_shape / <par>_factor_partition; reported <par>_factor compared at 1e-7)",
+    "Q is calibrated with the (root) motif probabilities also for the non-stationary models GN / ssGN / GNC / generated non-reversible models (documented by get_rate_matrix_for_edge); "
+    "for generated non-reversible word models the mprob_model only decides how the root word distribution is formed from the given motif probabilities",
+    "mprob_model='monomers' (position-specific monomers, exercised by tests/test_evolve/test_newq.py): the likelihood function is given word frequencies; the nucleotide "
+    "frequencies of word position p are the marginals of those word frequencies (over the model's states), the word distribution is their normalised product and the pi-term "
+    "of a change at position p is the position-p frequency of the new nucleotide; the motif probabilities such a function reports (per position) are not compared",
     "empirical protein exchangeability tables and frequencies are read as data from cogent3.evolve.models; the amino-acid order of the tables is taken from the model alphabet",
-    "expm setting: library default ('either') or 'pade'; old-style Alignment and ArrayAlignment inputs of moltype dna / protein",
-    "generated predicate models use disjoint predicates that do not cover every instantaneous change (otherwise the constructor rejects them as redundant)",
+    "expm setting: library default ('either') or 'pade'; old-style Alignment and ArrayAlignment inputs of moltype dna / protein. New-type alignments cannot be given to a "
+    "likelihood function at this commit: make_aligned_seqs(..., new_type=True) returns the old classes (the argument is passed on and ignored; there is no Alignment class in "
+    "core/new_alignment.py), a new-style MolType is rejected by make_aligned_seqs (AttributeError in get_moltype) and a new-style SequenceCollection has no get_gapped_seq; "
+    "so the new-moltype branch of make_likelihood_tree_leaf is unreachable through lf.set_alignment and is not exercised",
+    "generated predicate models use disjoint groups of single-letter changes that do not cover every instantaneous change (otherwise the constructor rejects them as redundant); "
+    "generated codon models add overlapping predicates (predefined ones, CpG, a conjunction): the harness evaluates its own predicate functions on every instantaneous change and, "
+    "when a predicate holds nowhere / everywhere or the indicator vectors (with the all-ones vector) are linearly dependent, a ValueError from the constructor is the documented "
+    "outcome and the case ends there; otherwise the constructor must succeed",
 ]
 
 NUCS = "ACGT"
@@ -82,10 +103,38 @@ IUPAC = {
 NUC_DEGEN = "RYMKSWHBVDN-?"
 AAS = "ACDEFGHIKLMNPQRSTVWY"
 AA_AMBIG = {"B": "DN", "Z": "EQ", "X": AAS, "-": AAS, "?": AAS}
-# standard genetic code, codons in TCAG order
+# standard genetic code, codons in TCAG order (written here); the other codes come from the tables pinned in vlib/ncbi_codes.py
 _GC_STR = "FFLLSSSSYY**CC*WLLLLPPPPHHQQRRRRIIIMTTTTNNKKSSRRVVVVAAAADDEEGGGG"
-_GC = {a + b + c: _GC_STR[16 * i + 4 * j + k] for i, a in enumerate("TCAG") for j, b in enumerate("TCAG") for k, c in enumerate("TCAG")}
-SENSE = sorted(c for c, aa in _GC.items() if aa != "*")
+_GC_TABLES = {}
+_SENSE_LISTS = {}
+# codes offered to get_model(name, gc=k): 2 (60 sense codons; AGA/AGG stop, TGA=W, ATA=M), 4 (62; TGA=W), 6 (63; TAA/TAG=Q),
+# 11 (amino acids of the standard code), 12 (61; CTG=S), 27 (no stop codon: 64 states)
+GC_CHOICES = [2, 2, 4, 6, 11, 12, 27]
+
+
+def gc_table(gc=None):
+    """{codon: amino acid or '*'} of NCBI genetic code ``gc`` (None / 1 = standard)"""
+    gc = 1 if gc is None else int(gc)
+    if gc not in _GC_TABLES:
+        if gc == 1:
+            aas = _GC_STR
+        else:
+            from vlib.ncbi_codes import CODES
+
+            aas = CODES[gc][1]
+        _GC_TABLES[gc] = {a + b + c: aas[16 * i + 4 * j + k] for i, a in enumerate("TCAG") for j, b in enumerate("TCAG") for k, c in enumerate("TCAG")}
+    return _GC_TABLES[gc]
+
+
+def sense_codons(gc=None):
+    gc = 1 if gc is None else int(gc)
+    if gc not in _SENSE_LISTS:
+        _SENSE_LISTS[gc] = sorted(c for c, aa in gc_table(gc).items() if aa != "*")
+    return _SENSE_LISTS[gc]
+
+
+_GC = gc_table(1)
+SENSE = sense_codons(1)
 DINUCS = [a + b for a in NUCS for b in NUCS]
 TRANSITIONS = {frozenset("AG"), frozenset("CT")}
 
@@ -126,18 +175,21 @@ NONREV = {"GN", "ssGN", "GNC"}
 
 
 # ------------------------------------------------------------------ oracle
-def states_of(space):
-    return {"nuc": list(NUCS), "dinuc": DINUCS, "codon": SENSE, "protein": list(AAS)}[space]
+def states_of(space, gc=None):
+    if space == "codon":
+        return sense_codons(gc)
+    return {"nuc": list(NUCS), "dinuc": DINUCS, "protein": list(AAS)}[space]
 
 
-def compatible(space, sym):
+def compatible(space, sym, gc=None):
     """state set compatible with an observed (possibly degenerate) symbol"""
     if space == "protein":
         return AA_AMBIG.get(sym, sym)
     sets = [IUPAC[ch] for ch in sym]
     out = ["".join(p) for p in itertools.product(*sets)]
     if space == "codon":
-        out = [c for c in out if _GC[c] != "*"]
+        tbl = gc_table(gc)
+        out = [c for c in out if tbl[c] != "*"]
     return out
 
 
@@ -150,14 +202,35 @@ def _cpg(x, y, p):
     return n == 1
 
 
-def predicate_for(name, user=None):
+NAMED_SPECS = ("omega", "replacement", "silent", "kappa", "transition", "transversion")
+
+
+def spec_fn(spec, gc=None):
+    """(x, y, p, a, b) -> bool for a predicate specification of a generated model: 'cpg', one of NAMED_SPECS (the predicates
+    the model classes predefine), a list of directed [from, to] pairs of single letters, or {"and": [spec, spec]}"""
+    if spec == "cpg":
+        return lambda x, y, p, a, b: _cpg(x, y, p)
+    if spec in ("omega", "replacement"):
+        tbl = gc_table(gc)
+        return lambda x, y, p, a, b: tbl[x] != tbl[y]
+    if spec == "silent":
+        tbl = gc_table(gc)
+        return lambda x, y, p, a, b: tbl[x] == tbl[y]
+    if spec in ("kappa", "transition"):
+        return lambda x, y, p, a, b: frozenset((a, b)) in TRANSITIONS
+    if spec == "transversion":
+        return lambda x, y, p, a, b: frozenset((a, b)) not in TRANSITIONS
+    if isinstance(spec, dict):
+        fns = [spec_fn(q, gc) for q in spec["and"]]
+        return lambda x, y, p, a, b: all(f(x, y, p, a, b) for f in fns)
+    pairs = {(f, t) for f, t in spec}
+    return lambda x, y, p, a, b: (a, b) in pairs
+
+
+def predicate_for(name, user=None, gc=None):
     """(x, y, p, a, b) -> bool for a parameter name; x->y differ at position p only, a=x[p], b=y[p]"""
     if user is not None and name in user:
-        spec = user[name]
-        if spec == "cpg":
-            return lambda x, y, p, a, b: _cpg(x, y, p)
-        pairs = {(f, t) for f, t in spec}
-        return lambda x, y, p, a, b: (a, b) in pairs
+        return spec_fn(user[name], gc)
     if name == "kappa":
         return lambda x, y, p, a, b: frozenset((a, b)) in TRANSITIONS
     if name == "kappa_y":
@@ -165,7 +238,8 @@ def predicate_for(name, user=None):
     if name == "kappa_r":
         return lambda x, y, p, a, b: {a, b} == {"A", "G"}
     if name == "omega":
-        return lambda x, y, p, a, b: _GC[x] != _GC[y]
+        tbl = gc_table(gc)
+        return lambda x, y, p, a, b: tbl[x] != tbl[y]
     if name == "G":
         return lambda x, y, p, a, b: _cpg(x, y, p)
     if name == "G.K":
@@ -183,27 +257,49 @@ def predicate_for(name, user=None):
     return lambda x, y, p, a, b: frozenset((a, b)) in und or (a, b) in dire
 
 
-def word_probs(space, pi_kind, mprobs):
+def position_marginals(S, mprobs):
+    """per word position, the nucleotide frequencies implied by word frequencies ``mprobs`` (the 'monomers' model)"""
+    L = len(S[0])
+    out = []
+    for p in range(L):
+        m = {ch: 0.0 for ch in NUCS}
+        for s_ in S:
+            m[s_[p]] += mprobs[s_]
+        tot = sum(m.values())
+        out.append({ch: v / tot for ch, v in m.items()})
+    return out
+
+
+def word_probs(space, pi_kind, mprobs, gc=None, root_kind=None):
     """root / stationary distribution over states from the motif probabilities given to the model"""
     import numpy
 
-    S = states_of(space)
-    if pi_kind == "monomer":
+    S = states_of(space, gc)
+    kind = root_kind or pi_kind
+    if kind == "monomer":
         w = numpy.array([math.prod(mprobs[ch] for ch in s) for s in S])
+        return w / w.sum()
+    if kind == "monomers":
+        marg = position_marginals(S, mprobs)
+        w = numpy.array([math.prod(marg[p][ch] for p, ch in enumerate(s)) for s in S])
         return w / w.sum()
     return numpy.array([mprobs[s] for s in S])
 
 
-def build_Q(space, pi_kind, mprobs, preds, protein_S=None):
-    """calibrated rate matrix (numpy, harness state order) from the published definition"""
+def build_Q(space, pi_kind, mprobs, preds, protein_S=None, gc=None, root_kind=None):
+    """calibrated rate matrix (numpy, harness state order) from the published definition
+
+    pi_kind is the pi-term of an instantaneous change (none / tuple / monomer / monomers / conditional); root_kind says how the
+    word distribution used for calibration is formed (defaults to pi_kind). For single-letter alphabets every ordered pair of
+    distinct states is an instantaneous change."""
     import numpy
 
-    S = states_of(space)
+    S = states_of(space, gc)
     n = len(S)
-    w = word_probs(space, pi_kind, mprobs)
+    w = word_probs(space, pi_kind, mprobs, gc, root_kind)
     wd = dict(zip(S, w))
     Q = numpy.zeros((n, n))
-    if space == "protein":
+    if space == "protein" and protein_S is not None:
         for i in range(n):
             for j in range(n):
                 if i != j:
@@ -211,6 +307,7 @@ def build_Q(space, pi_kind, mprobs, preds, protein_S=None):
     else:
         L = len(S[0])
         ctx_cache = {}
+        marg = position_marginals(S, mprobs) if pi_kind == "monomers" else None
         for i, x in enumerate(S):
             for j, y in enumerate(S):
                 if i == j:
@@ -230,6 +327,8 @@ def build_Q(space, pi_kind, mprobs, preds, protein_S=None):
                     t = wd[y]
                 elif pi_kind == "monomer":
                     t = mprobs[b]
+                elif pi_kind == "monomers":
+                    t = marg[p][b]
                 else:  # conditional on the unchanged positions of the target
                     key = (y[:p], p, y[p + 1 :])
                     if key not in ctx_cache:
@@ -337,8 +436,11 @@ def _length(draw):
 
 
 @st.composite
-def _tree(draw, min_tips=3, max_tips=6):
-    n = draw(st.sampled_from([k for k in (3, 4, 4, 5, 5, 6, 6) if min_tips <= k <= max_tips]))
+def _tree(draw, min_tips=2, max_tips=6, big=False):
+    if big:
+        n = draw(st.integers(20, 40))
+    else:
+        n = draw(st.sampled_from([k for k in (2, 3, 3, 4, 4, 4, 5, 5, 5, 6, 6, 6) if min_tips <= k <= max_tips]))
     nodes = [{"name": f"t{i}", "len": draw(_length()), "kids": []} for i in range(n)]
     root_deg = draw(st.sampled_from([2, 3, 3, 4]))
     root_deg = min(root_deg, n)
@@ -374,7 +476,7 @@ def _bprobs(draw, n):
     return [w / tot for w in wts]
 
 
-def _degenerate_symbol(draw, space, base):
+def _degenerate_symbol(draw, space, base, gc=None):
     """a degenerate symbol compatible with state ``base`` (so the compatible set is never empty)"""
     if space == "protein":
         opts = ["X", "-", "?"]
@@ -396,8 +498,8 @@ def _degenerate_symbol(draw, space, base):
 
 
 @st.composite
-def _alignment(draw, space, tips, max_cols=15):
-    S = states_of(space)
+def _alignment(draw, space, tips, max_cols=15, gc=None):
+    S = states_of(space, gc)
     ncol = draw(st.integers(1, max_cols))
     npool = draw(st.integers(1, min(ncol, 8)))
     pool = []
@@ -442,81 +544,150 @@ def _scopes(draw, pars, edges, p_scope):
 
 
 UND_PAIRS = ["AC", "AG", "AT", "CG", "CT", "GT"]
+MPROB_MODELS = ["tuple", "monomer", "monomers", "conditional"]
+
+
+def _pair_groups(draw, pairs, max_groups, reversible, prefix="p"):
+    """disjoint groups of the given (from, to) pairs -> {name: sorted list of directed pairs}"""
+    npred = draw(st.integers(1, min(max_groups, len(pairs))))
+    groups = [[] for _ in range(npred)]
+    for i, pr in enumerate(pairs):
+        groups[i if i < npred else draw(st.integers(0, npred - 1))].append(pr)
+    out = {}
+    for i, g in enumerate(groups):
+        if reversible:
+            out[f"{prefix}{i}"] = sorted([a, b] for pr in g for a, b in (pr, pr[::-1]))
+        else:
+            out[f"{prefix}{i}"] = sorted([pr[0], pr[1]] for pr in g)
+    return out
+
+
+def _nuc_pair_preds(draw, rev):
+    """groups of nucleotide changes that leave at least one change unparameterised"""
+    if rev:
+        pairs = list(draw(st.permutations(UND_PAIRS)))[: draw(st.integers(1, 5))]
+        return _pair_groups(draw, pairs, 3, True)
+    dpairs = [f + t for f, t in itertools.permutations(NUCS, 2)]
+    pairs = list(draw(st.permutations(dpairs)))[: draw(st.integers(1, 11))]
+    return _pair_groups(draw, pairs, 4, False)
 
 
 @st.composite
-def _user_model(draw, dinuc):
-    """a predicate-built model: disjoint predicates that leave at least one change unparameterised"""
-    rev = True if dinuc else draw(st.booleans())
-    preds = {}
-    if rev:
-        pairs = list(draw(st.permutations(UND_PAIRS)))[: draw(st.integers(1, 5))]
-        npred = draw(st.integers(1, min(3, len(pairs))))
-        groups = [[] for _ in range(npred)]
-        for i, pr in enumerate(pairs):
-            groups[i if i < npred else draw(st.integers(0, npred - 1))].append(pr)
-        for i, g in enumerate(groups):
-            preds[f"p{i}"] = sorted([a, b] for pr in g for a, b in (pr, pr[::-1]))
-    else:
-        dpairs = [f + t for f, t in itertools.permutations(NUCS, 2)]
-        pairs = list(draw(st.permutations(dpairs)))[: draw(st.integers(1, 11))]
-        npred = draw(st.integers(1, min(4, len(pairs))))
-        groups = [[] for _ in range(npred)]
-        for i, pr in enumerate(pairs):
-            groups[i if i < npred else draw(st.integers(0, npred - 1))].append(pr)
-        for i, g in enumerate(groups):
-            preds[f"p{i}"] = sorted([pr[0], pr[1]] for pr in g)
-    spec = {"reversible": rev, "preds": preds}
-    if dinuc:
-        spec["mprob_model"] = draw(st.sampled_from(["tuple", "monomer", "conditional"]))
+def _user_model(draw, kind):
+    """a predicate-built model over nucleotides, dinucleotides, codons or amino acids: groups of single-letter changes that leave
+    at least one change unparameterised, plus (word models) the CpG term and (codon models) predefined predicates and a conjunction"""
+    if kind is True or kind is False:  # older call form: dinuc flag
+        kind = "dinuc" if kind else "nuc"
+    if kind == "nuc":
+        rev = draw(st.booleans())
+        return {"reversible": rev, "preds": _nuc_pair_preds(draw, rev)}
+    if kind == "dinuc":
+        rev = draw(st.sampled_from([True, True, False]))
+        spec = {"reversible": rev, "preds": _nuc_pair_preds(draw, rev), "mprob_model": draw(st.sampled_from(MPROB_MODELS))}
         if draw(st.booleans()):
             spec["preds"]["cpg"] = "cpg"
-    return spec
+        return spec
+    if kind == "protein":
+        rev = draw(st.sampled_from([True, True, False]))
+        npairs = draw(st.integers(1, 8))
+        seen = []
+        for _ in range(npairs):
+            i = draw(st.integers(0, 19))
+            j = draw(st.integers(0, 18))
+            j = j + 1 if j >= i else j
+            pr = AAS[i] + AAS[j]
+            if pr not in seen and (not rev or pr[::-1] not in seen):
+                seen.append(pr)
+        return {"reversible": rev, "preds": _pair_groups(draw, seen, 3, rev)}
+    # codon
+    rev = draw(st.sampled_from([True, True, False]))
+    preds = {}
+    k = draw(st.integers(0, 3))
+    if k > 0:
+        preds.update(_nuc_pair_preds(draw, rev))
+    else:
+        preds["k"] = draw(st.sampled_from(["kappa", "transition", "transversion"]))
+    if draw(st.integers(0, 3)) > 0:
+        preds["w"] = draw(st.sampled_from(["omega", "omega", "replacement", "silent"]))
+    if draw(st.integers(0, 2)) == 0:
+        preds["cg"] = "cpg"
+    if draw(st.integers(0, 2)) == 0:
+        first = draw(st.sampled_from(["transition", "transversion", "cpg"]))
+        preds["x"] = {"and": [first, draw(st.sampled_from(["silent", "replacement"]))]}
+    return {"reversible": rev, "preds": preds, "mprob_model": draw(st.sampled_from(MPROB_MODELS))}
 
 
-def _general_case(space_choice, allcols=False):
+def model_layout(name, user, space):
+    """(parameter names, pi-term, root-distribution kind, equal frequencies only, non-reversible) of a case's model"""
+    if name != "user":
+        _, pars, pi_kind, equal = MODEL_DEFS[name]
+        return list(pars), pi_kind, ("monomer" if pi_kind == "monomer" else "tuple"), equal, name in NONREV
+    mpm = user.get("mprob_model", "tuple")
+    root_kind = mpm if mpm in ("monomer", "monomers") else "tuple"
+    pi_kind = mpm if user["reversible"] else "none"
+    return sorted(user["preds"]), pi_kind, root_kind, False, not user["reversible"]
+
+
+def mprob_keys(space, root_kind, gc=None):
+    """what the motif probabilities given to the likelihood function are keyed by"""
+    return list(NUCS) if root_kind == "monomer" else states_of(space, gc)
+
+
+def _general_case(space_choice, allcols=False, big=False):
+    """space_choice: a state space or a list of them (one is drawn); allcols: the alignment is every possible column;
+    big: a share of the trees has 20-40 tips (thorough tier, nucleotide models)"""
+
     @st.composite
     def build(draw):
-        space = space_choice
+        space = space_choice if isinstance(space_choice, str) else draw(st.sampled_from(list(space_choice)))
         case = {}
         user = None
+        gc = None
         if space == "nuc":
-            if allcols or draw(st.integers(0, 4)) > 0:
-                name = draw(st.sampled_from(NUC_MODELS + ["HKY85", "GTR", "GN", "ssGN", "TN93", "F81"]))
-            else:
-                name = "user"
+            name = draw(st.sampled_from(NUC_MODELS + ["HKY85", "GTR", "GN", "ssGN", "TN93", "F81"])) if draw(st.integers(0, 4)) > 0 else "user"
         elif space == "dinuc":
             name = "user"
         elif space == "codon":
-            name = draw(st.sampled_from(CODON_MODELS))
+            name = draw(st.sampled_from(CODON_MODELS)) if draw(st.integers(0, 4)) > 0 else "user"
+            if draw(st.integers(0, 1)) == 1:
+                gc = draw(st.sampled_from(GC_CHOICES))
         else:
-            name = draw(st.sampled_from(PROTEIN_MODELS))
+            name = draw(st.sampled_from(PROTEIN_MODELS)) if draw(st.integers(0, 3)) > 0 else "user"
         if name == "user":
-            user = draw(_user_model(space == "dinuc"))
-            pars = sorted(user["preds"])
-            pi_kind = user.get("mprob_model", "tuple") if user["reversible"] else "none"
-            equal = False
+            user = draw(_user_model(space))
             case["user"] = user
-        else:
-            _, pars, pi_kind, equal = MODEL_DEFS[name]
+        pars, pi_kind, root_kind, equal, _nonrev = model_layout(name, user, space)
         case["model"] = name
         case["space"] = space
-        tree = draw(_tree(3, 4) if allcols else _tree(3, 6 if space in ("nuc", "dinuc") else 5))
+        if gc is not None:
+            case["gc"] = gc
+        if allcols:
+            # every column: 4^n (n = 2-4), 16^n / 20^n (n = 2-3), sense codons ^ 2
+            tree = draw(_tree(2, {"nuc": 4, "dinuc": 3, "protein": 3, "codon": 2}[space]))
+        elif big and draw(st.integers(0, 5)) == 0:
+            tree = draw(_tree(big=True))
+        else:
+            tree = draw(_tree(2, 6 if space in ("nuc", "dinuc") else 5))
         case["tree"] = tree
         edges = [e for e, _, _ in m_edges(tree)]
         tips = m_tips(tree)
-        mkeys = list(NUCS) if pi_kind == "monomer" else states_of(space)
+        mkeys = mprob_keys(space, root_kind, gc)
         if space == "nuc" and not equal:
-            config = draw(st.sampled_from(["plain", "scope", "scope", "gamma", "free", "binpar", "loci"]))
+            options = ["plain", "scope", "scope", "gamma", "free", "binpar", "loci", "pgamma", "pfree"]
         elif space == "nuc":
-            config = draw(st.sampled_from(["plain", "scope", "gamma", "free", "loci"]))
+            options = ["plain", "scope", "gamma", "free", "loci", "pgamma"]
         elif space == "dinuc":
-            config = draw(st.sampled_from(["plain", "scope", "gamma"]))
+            options = ["plain", "scope", "scope", "gamma", "free", "binpar", "loci", "pgamma"]
         elif space == "codon":
-            config = draw(st.sampled_from(["plain", "scope", "scope", "gamma", "binpar"]))
+            options = ["plain", "scope", "scope", "gamma", "binpar", "pgamma", "pgamma", "free", "loci"]
+        elif name == "user":
+            options = ["plain", "scope", "gamma", "binpar", "pgamma"]
         else:
-            config = draw(st.sampled_from(["plain", "plain", "gamma", "free"]))
-        if config in ("scope", "binpar") and not pars:
+            options = ["plain", "plain", "gamma", "free"]
+        if allcols and space != "nuc":
+            options = [o for o in options if o != "loci"]
+        config = draw(st.sampled_from(options))
+        if config in ("scope", "binpar", "pgamma", "pfree") and not pars:
             config = "plain"
         case["config"] = config
         nloci = 2 if config == "loci" else 1
@@ -526,20 +697,24 @@ def _general_case(space_choice, allcols=False):
             if allcols:
                 loc["aln"] = "allcols"
             else:
-                loc["aln"] = draw(_alignment(space, tips, 15 if space in ("nuc", "dinuc") else 8))
+                loc["aln"] = draw(_alignment(space, tips, 15 if space in ("nuc", "dinuc") else 8, gc))
             loci.append(loc)
         case["loci"] = loci
-        p_scope = {"scope": 60, "gamma": 20, "free": 20, "loci": 20}.get(config, 0)
+        p_scope = {"scope": 60, "gamma": 20, "free": 20, "loci": 20, "pgamma": 20, "pfree": 20}.get(config, 0)
         case["scoped"] = draw(_scopes(pars, edges, p_scope)) if p_scope else {}
         if config == "scope" and not case["scoped"] and pars:
             par = draw(st.sampled_from(pars))
             case["scoped"] = {par: [[[draw(st.sampled_from(edges))], draw(_rate_value())]]}
-        if config in ("gamma", "free", "binpar"):
+        if config in ("gamma", "free", "binpar", "pgamma", "pfree"):
             nb = draw(st.integers(2, 4))
             bins = {"n": nb, "bprobs": draw(_bprobs(nb))}
-            if config == "gamma":
+            if config in ("pgamma", "pfree"):
+                # the bins differ in one model parameter: value on an edge x a per-bin factor of weighted mean one
+                preferred = [q for q in pars if q in ("omega", "kappa", "w", "k")]
+                bins["par"] = draw(st.sampled_from(preferred + pars))
+            if config in ("gamma", "pgamma"):
                 bins["shape"] = _sig(10.0 ** draw(st.floats(-1.0, 1.3)))
-            elif config == "free":
+            elif config in ("free", "pfree"):
                 incs = [draw(st.integers(1, 9)) for _ in range(nb)]
                 tot = sum(incs)
                 bins["increments"] = [i / tot for i in incs]
@@ -559,20 +734,71 @@ def _general_case(space_choice, allcols=False):
 _MODEL_CACHE = {}
 
 
+def _real_predicate(spec):
+    """cogent3 predicate object for a predicate specification of a generated model"""
+    from cogent3.evolve import predicate as pr
+
+    if spec == "cpg":
+        return pr.MotifChange("CG")
+    if isinstance(spec, str):
+        return pr.parse(spec)  # a predicate the model class predefines (ModelSays)
+    if isinstance(spec, dict):
+        a, b = (_real_predicate(q) for q in spec["and"])
+        return a & b
+    out = None
+    for f, t in spec:
+        q = pr.MotifChange(f, t, forward_only=True)
+        out = q if out is None else (out | q)
+    return out
+
+
+def predicates_redundant(space, gc, specs):
+    """True when the constructor is documented to reject the predicate set: a predicate that holds for no or for every
+    instantaneous change, or indicator vectors that are linearly dependent among themselves or with the all-ones vector"""
+    import numpy
+
+    S = states_of(space, gc)
+    L = len(S[0])
+    fns = [spec_fn(q, gc) for q in specs]
+    rows = []
+    for x in S:
+        for y in S:
+            diffs = [p for p in range(L) if x[p] != y[p]]
+            if len(diffs) == 1:
+                p = diffs[0]
+                rows.append([1.0 if f(x, y, p, x[p], y[p]) else 0.0 for f in fns] + [1.0])
+    M = numpy.array(rows)
+    if any(M[:, k].sum() in (0.0, float(len(rows))) for k in range(len(fns))):
+        return True
+    rank = lambda A: int((numpy.linalg.svd(A, compute_uv=False) > 1e-8).sum())  # noqa: E731
+    return rank(M[:, :-1]) < len(fns) or rank(M) < len(fns) + 1
+
+
+def _model_kw(case):
+    config = case["config"]
+    if config == "gamma":
+        return {"ordered_param": "rate", "distribution": "gamma"}
+    if config == "free":
+        return {"ordered_param": "rate", "distribution": "free"}
+    if config == "pgamma":
+        return {"ordered_param": case["bins"]["par"], "distribution": "gamma"}
+    if config == "pfree":
+        return {"ordered_param": case["bins"]["par"], "distribution": "free"}
+    return {}
+
+
 def _get_sm(case):
     """substitution model object (cached per process: models are reusable factories for likelihood functions)"""
     import json
 
     name = case["model"]
-    config = case["config"]
-    kw = {}
-    if config == "gamma":
-        kw = {"ordered_param": "rate", "distribution": "gamma"}
-    elif config == "free":
-        kw = {"ordered_param": "rate", "distribution": "free"}
-    key = json.dumps([name, case.get("user"), kw], sort_keys=True)
+    kw = _model_kw(case)
+    gc = case.get("gc")
+    key = json.dumps([name, case["space"], case.get("user"), kw, gc], sort_keys=True)
     if key in _MODEL_CACHE:
         return _MODEL_CACHE[key]
+    if gc is not None:
+        kw = dict(kw, gc=gc)
     if name != "user":
         from cogent3 import get_model
 
@@ -580,26 +806,22 @@ def _get_sm(case):
     else:
         from cogent3.evolve import ns_substitution_model as nsm
         from cogent3.evolve import substitution_model as smod
-        from cogent3.evolve.predicate import MotifChange
 
         user = case["user"]
-        preds = {}
-        for pname, spec in user["preds"].items():
-            if spec == "cpg":
-                preds[pname] = MotifChange("CG")
-                continue
-            pr = None
-            for f, t in spec:
-                q = MotifChange(f, t, forward_only=True)
-                pr = q if pr is None else (pr | q)
-            preds[pname] = pr
+        space = case["space"]
+        preds = {pname: _real_predicate(spec) for pname, spec in user["preds"].items()}
         kw = dict(kw, predicates=preds, recode_gaps=True, model_gaps=False)
-        if case["space"] == "dinuc":
-            sm = smod.TimeReversibleDinucleotide(mprob_model=user["mprob_model"], **kw)
-        elif user["reversible"]:
-            sm = smod.TimeReversibleNucleotide(**kw)
+        if space in ("dinuc", "codon"):
+            kw["mprob_model"] = user["mprob_model"]
+        rev = user["reversible"]
+        if space == "dinuc":
+            sm = smod.TimeReversibleDinucleotide(**kw) if rev else nsm.NonReversibleDinucleotide(**kw)
+        elif space == "codon":
+            sm = smod.TimeReversibleCodon(**kw) if rev else nsm.NonReversibleCodon(**kw)
+        elif space == "protein":
+            sm = smod.TimeReversibleProtein(**kw) if rev else nsm.NonReversibleProtein(**kw)
         else:
-            sm = nsm.NonReversibleNucleotide(**kw)
+            sm = smod.TimeReversibleNucleotide(**kw) if rev else nsm.NonReversibleNucleotide(**kw)
     _MODEL_CACHE[key] = sm
     return sm
 
@@ -613,10 +835,10 @@ def _protein_table(name, motifs):
     return [[float(mat[i][j]) for j in idx] for i in idx]
 
 
-def _all_columns(space, tips):
-    S = states_of(space)
+def _all_columns(space, tips, gc=None):
+    S = states_of(space, gc)
     cols = list(itertools.product(S, repeat=len(tips)))
-    return {t: "".join(c[i] for c in cols) for i, t in enumerate(tips)}, len(cols)
+    return {t: [c[i] for c in cols] for i, t in enumerate(tips)}, len(cols)
 
 
 def _rows(aln, tips):
@@ -648,17 +870,11 @@ def execute(case) -> Soft:
     user = case.get("user")
     config = case["config"]
     tree = case["tree"]
-    S = states_of(space)
+    gc = case.get("gc")
+    S = states_of(space, gc)
     n = len(S)
-    wl = len(S[0])
-    if name == "user":
-        pars = sorted(user["preds"])
-        pi_kind = user.get("mprob_model", "tuple") if user["reversible"] else "none"
-        equal = False
-        nonrev = not user["reversible"]
-    else:
-        _, pars, pi_kind, equal = MODEL_DEFS[name]
-        nonrev = name in NONREV
+    pars, pi_kind, root_kind, equal, nonrev = model_layout(name, user, space)
+    upreds = user["preds"] if user else None
     edges = m_edges(tree)
     tips = m_tips(tree)
     bins = case.get("bins")
@@ -669,8 +885,12 @@ def execute(case) -> Soft:
     allcols = case["loci"][0]["aln"] == "allcols"
 
     # ---------------------------------------------------------------- real
-    ok, sm = s.call("model", _get_sm, case)
+    # overlapping predicates (generated codon models) may form a set the constructor is documented to reject as redundant
+    redundant = bool(user) and space == "codon" and predicates_redundant(space, gc, [upreds[q] for q in pars])
+    ok, sm = s.call("model", _get_sm, case, allowed=(ValueError,) if redundant else ())
     if not ok:
+        if redundant:
+            s.cls("redundant-predicates-rejected")
         return s
 
     def mk_tree():
@@ -704,12 +924,11 @@ def execute(case) -> Soft:
     ncols = []
     for loc in case["loci"]:
         if allcols:
-            seqs, nc = _all_columns(space, tips)
-            rows = {t: list(seqs[t]) for t in tips}
+            rows, nc = _all_columns(space, tips, gc)
         else:
             rows = _rows(loc["aln"], tips)
             nc = len(loc["aln"]["order"])
-            seqs = {t: "".join(rows[t]) for t in tips}
+        seqs = {t: "".join(rows[t]) for t in tips}
         rows_by_locus.append(rows)
         ncols.append(nc)
         seqs_by_locus.append(seqs)
@@ -727,7 +946,9 @@ def execute(case) -> Soft:
     ok, pnames = s.call("get_param_names", lf.get_param_names)
     if not ok:
         return s
-    rate_like = {"mprobs", "length", "bprobs", "rate", "rate_shape"}
+    rate_like = {"mprobs", "psmprobs", "length", "bprobs", "rate", "rate_shape"}
+    if config in ("pgamma", "pfree"):
+        rate_like |= {bins["par"] + "_factor", bins["par"] + "_factor_shape"}
     got_pars = sorted(p for p in pnames if p not in rate_like)
     if not s.eq(got_pars, sorted(pars), "param-names", f"model {name} rate parameters"):
         return s
@@ -751,6 +972,10 @@ def execute(case) -> Soft:
                     lf.set_param_rule("rate_shape", value=bins["shape"], is_constant=True)
                 elif config == "free":
                     lf.set_param_rule("rate_partition", value=numpy.array(bins["increments"], float), is_constant=True)
+                elif config == "pgamma":
+                    lf.set_param_rule(bins["par"] + "_factor_shape", value=bins["shape"], is_constant=True)
+                elif config == "pfree":
+                    lf.set_param_rule(bins["par"] + "_factor_partition", value=numpy.array(bins["increments"], float), is_constant=True)
                 else:
                     for b, v in zip(bin_names, bins["values"]):
                         lf.set_param_rule(bins["par"], bin=b, value=v, is_constant=True)
@@ -768,11 +993,19 @@ def execute(case) -> Soft:
 
     # ---------------------------------------------------------------- model
     prot_S = None
+    fam = _family(name, user, space, gc)
+    compat_cache = {}
+
+    def compat(symb):
+        if symb not in compat_cache:
+            compat_cache[symb] = compatible(space, symb, gc)
+        return compat_cache[symb]
+
     motifs = [str(m) for m in sm.get_motifs()]
     if sorted(motifs) != sorted(S):
         s.fail("alphabet", f"model states {motifs[:8]}… differ from the published state space ({len(motifs)} vs {n})")
         return s
-    if space == "protein":
+    if space == "protein" and not user:
         prot_S = _protein_table(name, motifs)
         sym = all(abs(prot_S[i][j] - prot_S[j][i]) <= 1e-12 * max(1.0, abs(prot_S[i][j])) for i in range(n) for j in range(n))
         s.check(sym, f"protein-table-symmetric/{name}", "exchangeability table is not symmetric")
@@ -784,17 +1017,23 @@ def execute(case) -> Soft:
                 v = val
         if bins and config == "binpar" and bins["par"] == par:
             v = bins["values"][b]
+        if bins and config in ("pgamma", "pfree") and bins["par"] == par:
+            v = v * float(pfactors[b])
         return v
 
+    brates = [1.0] * nb
+    pfactors = None
     if config == "gamma":
         brates = gamma_rates(bins["shape"], bins["bprobs"])
     elif config == "free":
         brates = free_rates(bins["increments"], bins["bprobs"])
-    else:
-        brates = [1.0] * nb
+    elif config == "pgamma":
+        pfactors = gamma_rates(bins["shape"], bins["bprobs"])
+    elif config == "pfree":
+        pfactors = free_rates(bins["increments"], bins["bprobs"])
     bprobs = bins["bprobs"] if bins else [1.0]
 
-    mkeys = list(NUCS) if pi_kind == "monomer" else S
+    mkeys = mprob_keys(space, root_kind, gc)
     eigen_imprecise = False
     pending = []  # (leaf vectors, [P per bin], root distribution) per locus; pruned once the P error is known
     qcache = {}
@@ -803,11 +1042,11 @@ def execute(case) -> Soft:
     for li, loc in enumerate(case["loci"]):
         mp = loc["mprobs"] if loc["mprobs"] is not None else {k: 1.0 / len(mkeys) for k in mkeys}
         unequal_pi = unequal_pi or len({round(v, 12) for v in mp.values()}) > 1
-        root_pi = word_probs(space, pi_kind, mp)
+        root_pi = word_probs(space, pi_kind, mp, gc, root_kind)
         lkw = {"locus": locus_names[li]} if nloci > 1 else {}
 
-        # motif probabilities as reported
-        ok, gmp = s.call("get_motif_probs", lambda: lf.get_motif_probs(**lkw))
+        # motif probabilities as reported (the position-specific model reports per-position values: not compared)
+        ok, gmp = (False, None) if root_kind == "monomers" else s.call("get_motif_probs", lambda: lf.get_motif_probs(**lkw))
         if ok:
             try:
                 gd = {str(k): float(v) for k, v in gmp.to_dict().items()}
@@ -819,11 +1058,12 @@ def execute(case) -> Soft:
                 s.check(not bad, "get_motif_probs/values", f"{name}: (motif, got, set) {bad[:3]}")
 
         leafvec = {}
+        sidx = {x: i for i, x in enumerate(S)}
         for t in tips:
             m = numpy.zeros((ncols[li], n))
             for c, symb in enumerate(rows_by_locus[li][t]):
-                for st_ in compatible(space, symb):
-                    m[c, S.index(st_)] = 1.0
+                for st_ in compat(symb):
+                    m[c, sidx[st_]] = 1.0
             leafvec[t] = m
 
         P_bins = []
@@ -833,8 +1073,8 @@ def execute(case) -> Soft:
                 vals = tuple(value_of(p, li, ename, b) for p in pars)
                 key = (li, vals)
                 if key not in qcache:
-                    preds = [(predicate_for(p, user["preds"] if user else None), v) for p, v in zip(pars, vals)]
-                    qcache[key] = build_Q(space, pi_kind, mp, preds, prot_S)
+                    preds = [(predicate_for(p, upreds, gc), v) for p, v in zip(pars, vals)]
+                    qcache[key] = build_Q(space, pi_kind, mp, preds, prot_S, gc, root_kind)
                     # rate matrix clause, once per distinct parameter combination
                     bkw = {"bin": bin_names[b]} if bins else {}
                     ok, gq = s.call("get_rate_matrix_for_edge", lambda: lf.get_rate_matrix_for_edge(ename, calibrated=True, **bkw, **lkw))
@@ -847,9 +1087,9 @@ def execute(case) -> Soft:
                             s.notes["dQ"] = max(s.notes.get("dQ", 0.0), float(err.max()) / scale)
                             if not (err <= 1e-9 * scale).all():
                                 i, j = numpy.unravel_index(int(numpy.argmax(err)), err.shape)
-                                circ = _q_circumstance(space, pi_kind, S[i], S[j], pars, user)
+                                circ = _q_circumstance(space, pi_kind, S[i], S[j], pars, user, gc)
                                 s.fail(
-                                    f"rate-matrix/{_family(name, user, space)}/{circ}",
+                                    f"rate-matrix/{fam}/{circ}",
                                     f"{name} edge {ename} q[{S[i]}->{S[j]}] got {float(G[i, j])!r} want {float(W[i, j])!r}; params {dict(zip(pars, vals))} mprobs {_brief(mp)}",
                                 )
                             evals += 1
@@ -873,7 +1113,7 @@ def execute(case) -> Soft:
                                 eigen_imprecise = True
                                 s.fail("psub/eigen-precision", what + f"; cond(eigenvectors of Q) = {cond:.3g}, params {dict(zip(pars, vals))}")
                             else:
-                                s.fail(f"psub/{_family(name, user, space)}" + ("/bins" if bins else ""), what)
+                                s.fail(f"psub/{fam}" + ("/bins" if bins else ""), what)
                         evals += 1
             P_bins.append(P)
         pending.append((leafvec, P_bins, root_pi))
@@ -896,16 +1136,17 @@ def execute(case) -> Soft:
         total += float(numpy.log(col).sum())
         slack_total += float(((hi - col) / col).sum())
 
-    # bin rates as reported
-    if config in ("gamma", "free"):
+    # bin rates / per-bin factors of the ordered parameter as reported
+    if config in ("gamma", "free", "pgamma", "pfree"):
+        rname = "rate" if config in ("gamma", "free") else bins["par"] + "_factor"
+        rwant = brates if config in ("gamma", "free") else pfactors
         for b in range(nb):
-            ok, r = s.call("get_param_value(rate)", lambda: lf.get_param_value("rate", bin=bin_names[b]))
+            ok, r = s.call("get_param_value(rate)", lambda: lf.get_param_value(rname, bin=bin_names[b]))
             if ok:
-                s.close(r, float(brates[b]), f"bin-rates/{config}", f"bins {bins} rate of {bin_names[b]}", rtol=1e-7)
+                s.close(r, float(rwant[b]), f"bin-rates/{config}", f"bins {bins} {rname} of {bin_names[b]}", rtol=1e-7)
 
     # ---------------------------------------------------------------- compare
-    circ = _circumstance(config, m_polytomy(tree), nonrev, bool(case["scoped"]))
-    fam = _family(name, user, space)
+    circ = _circumstance(config, m_polytomy(tree), nonrev, bool(case["scoped"]), len(tips))
     ok, lnL = s.call("lnL", lambda: lf.lnL)
     if ok:
         s.notes["dlnL"] = abs(float(lnL) - total) / max(1.0, abs(total))
@@ -939,9 +1180,11 @@ def execute(case) -> Soft:
             s.close(sum(want), 1.0, "harness/normalisation", "oracle columns do not sum to one", rtol=1e-9)
 
     # ---------------------------------------------------------------- classes
-    degenerate = (not allcols) and any(len(compatible(space, x)) > 1 for rows in rows_by_locus for t in tips for x in rows[t])
+    degenerate = (not allcols) and any(len(compat(x)) > 1 for rows in rows_by_locus for t in tips for x in rows[t])
     repeated = (not allcols) and any(len(loc["aln"]["order"]) > len(set(loc["aln"]["order"])) for loc in case["loci"])
-    s.cls(f"model:{name}", f"family:{fam}", f"config:{config}", f"tips:{len(tips)}", f"root-degree:{len(tree['kids'])}")
+    s.cls(f"model:{name}", f"family:{fam}", f"config:{config}", f"root-degree:{len(tree['kids'])}")
+    if len(tips) <= 6:
+        s.cls(f"tips:{len(tips)}")
     s.cls("polytomy" if m_polytomy(tree) else "binary")
     if case["scoped"]:
         s.cls("edge-scope")
@@ -956,7 +1199,11 @@ def execute(case) -> Soft:
     if unequal_pi:
         s.cls("unequal-pi")
     if name == "user":
-        s.cls("pi-term:" + pi_kind)
+        s.cls("pi-term:" + pi_kind, "mprob-model:" + user.get("mprob_model", "tuple"), "user-" + space + ("-nonrev" if nonrev else "-rev"))
+    if space == "codon":
+        s.cls(f"gc:{gc or 1}", f"states:{n}")
+    if len(tips) > 6:
+        s.cls("tips:20-40")
     if case.get("expm"):
         s.cls("expm:" + case["expm"])
     s.cls("ArrayAlignment" if case["array_align"] else "Alignment")
@@ -971,23 +1218,32 @@ def _brief(mp):
     return {k: round(v, 5) for k, v in items[:6]}
 
 
-def _family(name, user, space):
+def _family(name, user, space, gc=None):
+    tag = "" if gc in (None, 1) else "+gc"  # a non-standard genetic code is its own circumstance
     if name != "user":
-        return name
-    return ("dinuc-" + user["mprob_model"]) if space == "dinuc" else ("user-reversible" if user["reversible"] else "user-nonreversible")
+        return name + tag
+    if space == "nuc":
+        return "user-reversible" if user["reversible"] else "user-nonreversible"
+    if space == "dinuc":
+        return ("dinuc-" if user["reversible"] else "dinuc-nonrev-") + user["mprob_model"]
+    if space == "codon":
+        return ("codon-user-" if user["reversible"] else "codon-user-nonrev-") + user["mprob_model"] + tag
+    return "protein-user-rev" if user["reversible"] else "protein-user-nonrev"
 
 
-def _circumstance(config, poly, nonrev, scoped):
+def _circumstance(config, poly, nonrev, scoped, ntips=3):
     parts = [config]
     if scoped and config != "scope":
         parts.append("scope")
-    parts.append("polytomy" if poly else "binary")
+    parts.append("two-tips" if ntips == 2 else ("polytomy" if poly else "binary"))
+    if ntips > 6:
+        parts.append("many-tips")
     return "+".join(parts)
 
 
-def _q_circumstance(space, pi_kind, x, y, pars, user):
+def _q_circumstance(space, pi_kind, x, y, pars, user, gc=None):
     """which kind of cell of the rate matrix disagrees (names the predicates that hold there)"""
-    if space == "protein":
+    if space == "protein" and not user:
         return "cell"
     L = len(x)
     diffs = [p for p in range(L) if x[p] != y[p]]
@@ -996,31 +1252,33 @@ def _q_circumstance(space, pi_kind, x, y, pars, user):
     if len(diffs) != 1:
         return "non-instantaneous"
     p = diffs[0]
-    hold = [q for q in pars if predicate_for(q, user["preds"] if user else None)(x, y, p, x[p], y[p])]
+    hold = [q for q in pars if predicate_for(q, user["preds"] if user else None, gc)(x, y, p, x[p], y[p])]
     if user:
         return "predicates:" + str(len(hold))
     return "predicates:" + ("&".join(hold) if hold else "none")
 
 
 SUBS = [
-    Sub("nuc", execute, strategy=_general_case("nuc"), quick=1200, thorough=16 * 1500, shards_quick=16, weight=1.0),
+    Sub("nuc", execute, strategy=lambda tier: _general_case("nuc", big=(tier == "thorough")), quick=1100, thorough=16 * 1500, shards_quick=16, weight=1.0),
     Sub("dinuc", execute, strategy=_general_case("dinuc"), quick=240, thorough=16 * 300, shards_quick=8, weight=2.0),
     Sub("codon", execute, strategy=_general_case("codon"), quick=160, thorough=16 * 200, shards_quick=16, weight=8.0),
     Sub("protein", execute, strategy=_general_case("protein"), quick=96, thorough=16 * 100, shards_quick=8, weight=2.0),
     Sub("norm", execute, strategy=_general_case("nuc", allcols=True), quick=240, thorough=16 * 200, shards_quick=8, weight=1.0),
+    Sub("normw", execute, strategy=_general_case(["dinuc", "dinuc", "protein", "protein", "codon"], allcols=True), quick=64, thorough=16 * 60, shards_quick=8, weight=4.0),
 ]
 
 KNOWN_PREDICATES = {}
 
 META = {
-    "technique": "Hypothesis-generated trees, alignments, models, parameter values and scoping/bin/locus configurations; differential against a "
-    "first-principles re-implementation (rate matrices from predicates and motif-probability terms, scipy expm, Felsenstein pruning with "
-    "multifurcations and ambiguity sets, bin mixtures) written in the check",
-    "level_text": "Each run builds several hundred likelihood functions over every registered continuous-time model plus generated predicate and dinucleotide models "
-    "and compares parameter names, every edge's calibrated rate matrix and substitution matrix, every column likelihood and lnL with the harness computation "
-    "(lnL at 1e-9 relative); all 4^n columns of small trees must have likelihoods summing to one.",
-    "level_note": "Trusts the harness oracle (about 200 lines) and scipy's expm / gamma quantiles. Bounded to 6 tips and 15 columns in the quick tier; "
-    "empirical protein exchangeabilities are taken as data from the library; time-heterogeneous motif probabilities, discrete-time edges, "
-    "the site-HMM (sites_independent=False) and position-specific monomer models are not generated.",
+    "technique": "Hypothesis-generated trees, alignments, models (registered ones, genetic-code variants, predicate-built ones), parameter values and scoping/bin/locus "
+    "configurations; differential against a first-principles re-implementation (rate matrices from predicates and motif-probability terms, genetic-code tables pinned in "
+    "the harness, scipy expm, Felsenstein pruning with multifurcations and ambiguity sets, bin mixtures) written in the check",
+    "level_text": "Each run builds several hundred likelihood functions over every registered continuous-time model, codon models under seven genetic codes, and generated "
+    "nucleotide / dinucleotide / codon / protein predicate models, and compares parameter names, every edge's calibrated rate matrix and substitution matrix, every column "
+    "likelihood and lnL with the harness computation (lnL at 1e-9 relative); all possible columns of small trees (4, 16, 20 and 60-64 states) must have likelihoods summing to one.",
+    "level_note": "Trusts the harness oracle (about 300 lines), the pinned NCBI code strings and scipy's expm / gamma quantiles. Bounded to 6 tips (40 for nucleotide models in "
+    "the thorough tier) and 15 columns; empirical protein exchangeabilities are taken as data from the library; time-heterogeneous motif probabilities, discrete-time "
+    "edges, the site-HMM (sites_independent=False), partitioned_params other than the ordered one, trinucleotide models and new-type alignments (unreachable at this commit) "
+    "are not generated.",
     "design_ref": "DESIGN.md section 1, C02",
 }
